@@ -660,6 +660,8 @@ def _run_weak_sim(
     """
     # digital_tjm returns a measurement outcome structure for weak sim
     backend: Callable[[tuple[int, MPS, NoiseModel | None, WeakSimParams, QuantumCircuit]], Any] = digital_tjm
+    # Fresh measurement slots for this run (the object may have been used before)
+    sim_params.measurements = [None] * sim_params.shots
 
     # Trajectory count policy
     if noise_model is None or all(proc["strength"] == 0 for proc in noise_model.processes):
